@@ -1698,6 +1698,23 @@ class ServerSuite(SystemSuite):
         c = {k: v for k, v in case.items() if k not in ("oracle", "oracle_only")}
         return sim.run_scenario(c, gens.build_impl_generator)
 
+    def oracle_C01(self, case, out):
+        """whatever is selected between the touches: every row Wheatley rings or waits for has one place for each bell
+        of the tower"""
+        if "trace" not in out:
+            return None
+        n = case["oracle"]["n"]
+        rows = rows_rung(out)
+        for i, (r, bells, t) in enumerate(rows):
+            cut_short = i == len(rows) - 1 or rows[i + 1][0] == 0        # session over / Stop touch: a row may be left unfinished
+            if cut_short and len(bells) < n:
+                if len(set(bells)) != len(bells) or not all(1 <= b <= n for b in bells):
+                    return f"row {r} begun at {float(t):.3f}s = {bells} (cut short) repeats a bell or names one the tower has not got"
+                continue
+            if sorted(bells) != list(range(1, n + 1)):
+                return f"row {r} begun at {float(t):.3f}s = {bells} is not a complete row of the {n} bells of the tower"
+        return None
+
     def oracle_C19(self, case, out):
         if "trace" not in out:
             return None
